@@ -59,9 +59,10 @@ pub fn guarded<T>(f: impl FnOnce() -> T) -> Result<T, String> {
 
 /// `jsonlogic_rs::apply` without trace capture.
 pub fn apply(rule: &Value, data: &Value) -> Out {
-    match guarded(|| jsonlogic_rs::apply(rule, data)) {
+    // the error is rendered inside the guard: its Display is what the CLI and the Python module show
+    match guarded(|| jsonlogic_rs::apply(rule, data).map_err(|e| (e.to_string(), format!("{:?}", e).len()))) {
         Ok(Ok(v)) => Out::Ok(v),
-        Ok(Err(e)) => Out::Err(e.to_string()),
+        Ok(Err((text, _))) => Out::Err(text),
         Err(m) => Out::Panic(m),
     }
 }
